@@ -361,4 +361,4 @@ def verdict(desc):
     return out
 
 
-SUBS = [Sub("totals", config(), verdict, quick=160, thorough=4000)]
+SUBS = [Sub("totals", config(), verdict, quick=160, thorough=1600)]
